@@ -136,13 +136,18 @@ pub open spec fn step_resolved(s0: ReferenceStep, x: ValueType, structs: Structs
 		_ => s0,
 	}
 }
-pub open spec fn steps_resolved(r: Reference, out: Seq<ReferenceStep>, tab: SymTab, structs: Structs) -> bool {
+// (opaque: the verifier sees one atom per step; revealed where a step is passed)
+#[verifier::opaque]
+pub open spec fn resolved_at(out_k: ReferenceStep, r: Reference, k: int, tab: SymTab, structs: Structs) -> bool {
 	let sym = tab[r.base->Ok_0.resolution_id];
+	out_k == step_resolved(r.steps@[k], place_fold(value_type::strip(sym.value_type->Ok_0), r.steps@, k, r, sym.identifier.location, tab, structs)->Typed_0, structs)
+}
+pub open spec fn steps_resolved(r: Reference, out: Seq<ReferenceStep>, tab: SymTab, structs: Structs) -> bool {
 	&&& out.len() == r.steps@.len()
-	&&& forall|k: int| 0 <= k < out.len() ==> #[trigger] out[k] == step_resolved(r.steps@[k],
-		place_fold(value_type::strip(sym.value_type->Ok_0), r.steps@, k, r, sym.identifier.location, tab, structs)->Typed_0, structs)
+	&&& forall|k: int| 0 <= k < out.len() ==> resolved_at(#[trigger] out[k], r, k, tab, structs)
 }
 // caller obligation (unreachable!() of analyze_member_access): a structure type that a place passes through has been declared
+#[verifier::opaque]
 pub open spec fn structures_on_the_way_known(x0: ValueType, steps: Seq<ReferenceStep>, r: Reference, declared_at: Location, tab: SymTab, structs: Structs) -> bool {
 	forall|k: int| 0 <= k < steps.len() && (#[trigger] steps[k]) is Member ==> match place_fold(x0, steps, k, r, declared_at, tab, structs) {
 		Place::Typed(x) => structure_of(x) is Some ==> structs.contains_key(structure_of(x)->Some_0.resolution_id),
